@@ -17,6 +17,9 @@ import (
 	"github.com/kercylan98/vivid/pkg/ves"
 )
 
+// maxFrameLength 是单帧消息体（不含 4 字节长度前缀）允许的最大字节数，收发两端共用。
+const maxFrameLength = 4 * 1024 * 1024
+
 func newTCPConnectionActor(client bool, conn net.Conn, advertiseAddr string, codec vivid.Codec, envelopHandler NetworkEnvelopHandler, options ...tcpConnectionActorOption) (*tcpConnectionActor, error) {
 	opts := &tcpConnectionActorOptions{}
 	for _, option := range options {
@@ -124,7 +127,7 @@ func (c *tcpConnectionActor) onReadConn(ctx vivid.ActorContext) (fatal bool, err
 	}
 
 	// 消息长度超过 4MB 则认为无效
-	if msgLen > 4*1024*1024 {
+	if msgLen > maxFrameLength {
 		ctx.Logger().Warn("invalid message length", log.Int64("length", int64(msgLen)))
 		ctx.TellSelf(c.conn)
 		return false, vivid.ErrorInvalidMessageLength.WithMessage(fmt.Sprintf("length: %d", msgLen))
